@@ -111,7 +111,7 @@ fn c20(ctx: &CheckCtx) -> CheckResult {
     res.cov(
         "rule",
         format!(
-            "{}; part A: programs over the lock_api operations of the parking_lot replacement (bodies generated from the per-thread guard state, pairs / triples of bodies, 1-2 locks), reference model = lock_api contract + the documented two-stage FIFO discipline, findings F7/F8 encoded as weakened models selected by the operations a program contains, plus a model-independent holder ledger over every accepted execution; part B: programs over DashMap/DashSet operations on 2 keys, model = plain map + one reader/writer lock held by every operation and guard (co-simulation = linearizability w.r.t. the sequential map, real-time order included); part C: see collections_rule; part D: rand-wrapper bodies model-checked under the explorer's constant data menu (every drawn value must be the value the scheduler handed out) and replayed from the recorded schedule string, lazy_static-wrapper bodies under the C14 pair oracle",
+            "{}; part A: programs over the lock_api operations of the parking_lot replacement (bodies generated from the per-thread guard state, pairs / triples of bodies, 1-2 locks), reference model = lock_api contract + the documented two-stage FIFO discipline, findings F7/F8 encoded as weakened models selected by the operations a program contains, plus a model-independent holder ledger over every accepted execution; part B: programs over ALL public DashMap/DashSet operations that touch the map (incl. remove_if(_mut), retain, alter(_all), view, try_get(_mut), try_entry, iter_mut, the Entry / OccupiedEntry / VacantEntry API, guard accessors, clone; closures are data-dependent: predicates on the current value, deltas added to it) on 2-3 keys, every operation paired with a racing insert / remove / alter / held Ref / held RefMut on the same key and with itself, main reads the final contents after the joins; model = plain map + one reader/writer lock held by every operation and guard, try-operations answer Locked exactly when the lock cannot be had (co-simulation = linearizability w.r.t. the sequential map, real-time order included); part C: see collections_rule; part D: rand-wrapper bodies model-checked under the explorer's constant data menu (every drawn value must be the value the scheduler handed out) and replayed from the recorded schedule string, lazy_static-wrapper bodies under the C14 pair oracle",
             vx::checks::e2_rule()
         ),
     );
